@@ -1210,6 +1210,185 @@ class Module:
         self.out.append(indent(code, 1))
         self.out.append("")
 
+    # -- T17: the bintime arrays' algorithm over a 1-D NumPy array of tick counts ---------------------------------------------------
+    def translate_bt_array(self, cls: str, item_cls: str) -> None:
+        """T17: `__setitem__` (slice branch), `__delitem__` and `insert` of DateTimeArray / TimeDeltaArray over `Model.BtArray.Arr`
+        (tick counts; the 16-byte record encoding of an element is C02's business: `item.to_tuple().to_cvi()` is the element) and the
+        NumPy primitives of `Model/Np1.lean` (`a[slice] = list`, `np.delete`, `np.insert`).
+
+        Integer expressions: names, constants, `+`, unary `-`, `len(self)`, `len(self._array)`, `len(values)`, `len(range(a, b, c))`,
+        `min`, `max`, `int(x)`.  Conditions: `<`, `>`, `==`, `!=`, `and`.  Statements: `a, b, c = index.indices(len(self))`, `x = <int>`,
+        `x = slice(<int>, <int>)`, `if C: x = E`, `if / elif / else` whose branches end the method, `self._array[S] = L`, `del self[S]`,
+        `self._array = np.insert(self._array, P, L)`, `self._array = np.delete(self._array, X)`, `raise`.  List expressions: `values`,
+        `values[:n]`, `values[n:]`, `[item.to_tuple().to_cvi() for item in L]`, `value.to_tuple().to_cvi()`."""
+        def fail(msg, node):
+            raise Untranslatable(f"{cls}: {msg}", node, self.path)
+
+        def body_of(fn):
+            return [st for st in fn.body if not (isinstance(st, ast.Expr) and isinstance(st.value, ast.Constant))]
+
+        def err(st):
+            exc = st.exc
+            nm = ast.unparse(exc.func).split(".")[-1] if isinstance(exc, ast.Call) else None
+            if nm not in ERROR_FACTORIES:
+                fail("raise of unknown error", st)
+            return f"Except.error PyErr.{ERROR_FACTORIES[nm]}"
+
+        class Env:
+            def __init__(self):
+                self.ints = set(); self.slices = {}; self.lists = {"values"}
+        env = Env()
+
+        def ie(e) -> str:
+            if isinstance(e, ast.Constant) and type(e.value) is int:
+                return lit(e.value)
+            if isinstance(e, ast.Name) and e.id in env.ints:
+                return e.id
+            if isinstance(e, ast.BinOp) and isinstance(e.op, (ast.Add, ast.Sub)):
+                return f"({ie(e.left)} {'+' if isinstance(e.op, ast.Add) else '-'} {ie(e.right)})"
+            if isinstance(e, ast.UnaryOp) and isinstance(e.op, ast.USub):
+                return f"(-{ie(e.operand)})"
+            if isinstance(e, ast.Call) and not e.keywords:
+                f = ast.unparse(e.func)
+                if f == "len" and len(e.args) == 1:
+                    a0 = ast.unparse(e.args[0])
+                    if a0 in ("self", "self._array"):
+                        return "(a.length : Int)"
+                    if a0 in env.lists:
+                        return f"({a0}.length : Int)"
+                    if isinstance(e.args[0], ast.Call) and ast.unparse(e.args[0].func) == "range" and len(e.args[0].args) == 3:
+                        r = e.args[0].args
+                        return f"((Py.Slice.rangeLen {ie(r[0])} {ie(r[1])} {ie(r[2])} : Nat) : Int)"
+                if f in ("min", "max") and len(e.args) == 2:
+                    return f"({f} {ie(e.args[0])} {ie(e.args[1])})"
+                if f == "int" and len(e.args) == 1:
+                    return ie(e.args[0])
+            fail(f"unsupported integer expression {ast.unparse(e)[:80]}", e)
+
+        def ce(e) -> str:
+            if isinstance(e, ast.BoolOp) and isinstance(e.op, ast.And):
+                return "(" + " ∧ ".join(ce(v) for v in e.values) + ")"
+            if isinstance(e, ast.Compare) and len(e.ops) == 1:
+                op = {ast.Lt: "<", ast.Gt: ">", ast.Eq: "=", ast.NotEq: "≠", ast.LtE: "≤", ast.GtE: "≥"}.get(type(e.ops[0]))
+                if op:
+                    return f"{ie(e.left)} {op} {ie(e.comparators[0])}"
+            fail(f"unsupported condition {ast.unparse(e)[:80]}", e)
+
+        def le(e) -> str:
+            if isinstance(e, ast.Name) and e.id in env.lists:
+                return e.id
+            if isinstance(e, ast.Subscript) and isinstance(e.value, ast.Name) and e.value.id in env.lists and isinstance(e.slice, ast.Slice) and e.slice.step is None:
+                if e.slice.lower is None and e.slice.upper is not None:
+                    return f"({e.value.id}.take ({ie(e.slice.upper)}).toNat)"
+                if e.slice.upper is None and e.slice.lower is not None:
+                    return f"({e.value.id}.drop ({ie(e.slice.lower)}).toNat)"
+            if isinstance(e, ast.ListComp) and len(e.generators) == 1 and not e.generators[0].ifs and isinstance(e.generators[0].target, ast.Name) \
+                    and ast.unparse(e.elt) == f"{e.generators[0].target.id}.to_tuple().to_cvi()":
+                return le(e.generators[0].iter)
+            fail(f"unsupported list expression {ast.unparse(e)[:80]}", e)
+
+        def se(e) -> str:
+            """a slice -> 'start stop step' as three Option Int terms"""
+            if isinstance(e, ast.Name) and e.id in env.slices:
+                return env.slices[e.id]
+            if isinstance(e, ast.Name) and e.id == "index":
+                return "i0 i1 i2"
+            fail(f"unsupported slice {ast.unparse(e)[:60]}", e)
+
+        def stmts(ss) -> str:
+            if not ss:
+                return "Except.ok a"
+            st, rest = ss[0], ss[1:]
+            src = ast.unparse(st)
+            if isinstance(st, ast.Raise):
+                return err(st)
+            if isinstance(st, ast.Assign) and len(st.targets) == 1:
+                tgt = st.targets[0]
+                if isinstance(tgt, ast.Tuple) and ast.unparse(st.value) == "index.indices(len(self))" and all(isinstance(x, ast.Name) for x in tgt.elts) and len(tgt.elts) == 3:
+                    names = [x.id for x in tgt.elts]
+                    env.ints.update(names)
+                    return (f"Except.bind (Py.Slice.indices i0 i1 i2 a.length) (fun r =>\n  let {names[0]} : Int := r.1\n  let {names[1]} : Int := r.2.1\n  let {names[2]} : Int := r.2.2\n"
+                            + indent(stmts(rest), 1) + ")")
+                if isinstance(tgt, ast.Name) and isinstance(st.value, ast.Call) and ast.unparse(st.value.func) == "slice" and len(st.value.args) == 2:
+                    env.slices[tgt.id] = f"(some {ie(st.value.args[0])}) (some {ie(st.value.args[1])}) none"
+                    return stmts(rest)
+                if isinstance(tgt, ast.Name) and ast.unparse(st.value) == "value.to_tuple().to_cvi()":
+                    env.lists.add(tgt.id)
+                    return f"let {tgt.id} : List Int := [value]\n" + stmts(rest)
+                if isinstance(tgt, ast.Name) and tgt.id not in env.lists and tgt.id not in env.slices:
+                    t = ie(st.value)
+                    env.ints.add(tgt.id)
+                    return f"let {tgt.id} : Int := {t}\n" + stmts(rest)
+                if isinstance(tgt, ast.Subscript) and ast.unparse(tgt.value) == "self._array":
+                    return f"Except.bind (Model.Np1.setSlice a {se(tgt.slice)} {le(st.value)}) (fun a =>\n" + indent(stmts(rest), 1) + ")"
+                if ast.unparse(tgt) == "self._array" and isinstance(st.value, ast.Call):
+                    f = ast.unparse(st.value.func)
+                    args = st.value.args
+                    if f == "np.insert" and len(args) == 3 and ast.unparse(args[0]) == "self._array":
+                        return f"Except.bind (Model.Np1.insert a {ie(args[1])} {le(args[2])}) (fun a =>\n" + indent(stmts(rest), 1) + ")"
+                    if f == "np.delete" and len(args) == 2 and ast.unparse(args[0]) == "self._array":
+                        if ast.unparse(args[1]) == "int(index)" and "index" in env.ints:
+                            return "Except.bind (Model.Np1.deleteAt a index) (fun a =>\n" + indent(stmts(rest), 1) + ")"
+                        return f"Except.bind (Model.Np1.delete a {se(args[1])}) (fun a =>\n" + indent(stmts(rest), 1) + ")"
+            if isinstance(st, ast.Delete) and len(st.targets) == 1 and isinstance(st.targets[0], ast.Subscript) and ast.unparse(st.targets[0].value) == "self":
+                return f"Except.bind (delitem_slice a {se(st.targets[0].slice)}) (fun a =>\n" + indent(stmts(rest), 1) + ")"
+            if isinstance(st, ast.If):
+                if not st.orelse and len(st.body) == 1 and isinstance(st.body[0], ast.Raise):
+                    return f"if {ce(st.test)} then {err(st.body[0])} else\n" + stmts(rest)
+                if not st.orelse and len(st.body) == 1 and isinstance(st.body[0], ast.Assign) and isinstance(st.body[0].targets[0], ast.Name) \
+                        and st.body[0].targets[0].id in env.ints:
+                    x = st.body[0].targets[0].id
+                    return f"let {x} : Int := if {ce(st.test)} then {ie(st.body[0].value)} else {x}\n" + stmts(rest)
+                if st.orelse:
+                    if rest:
+                        fail("statements after an if / else whose branches end the method", rest[0])
+                    import copy as _c
+                    saved = (_c.deepcopy(env.ints), dict(env.slices), set(env.lists))
+                    tb = stmts(st.body)
+                    env.ints, env.slices, env.lists = saved[0], saved[1], saved[2]
+                    eb = stmts(st.orelse)
+                    return f"if {ce(st.test)} then\n{indent(tb, 1)}\nelse\n{indent(eb, 1)}"
+            fail(f"unsupported statement {src[:80]}", st)
+
+        # __delitem__: `if isinstance(index, int): <int branch> elif isinstance(index, slice): <slice branch> else: raise`
+        def branches(fn, name):
+            b = body_of(fn)
+            if not (len(b) == 1 and isinstance(b[0], ast.If) and ast.unparse(b[0].test) == "isinstance(index, int)" and len(b[0].orelse) == 1
+                    and isinstance(b[0].orelse[0], ast.If) and ast.unparse(b[0].orelse[0].test) == "isinstance(index, slice)"
+                    and len(b[0].orelse[0].orelse) == 1 and isinstance(b[0].orelse[0].orelse[0], ast.Raise)):
+                fail(f"{name}: expected the int / slice / else-raise dispatch", fn)
+            return b[0].body, b[0].orelse[0].body
+        d_int, d_slice = branches(self.find_func(cls, "__delitem__"), "__delitem__")
+        env = Env(); env.ints.add("index")
+        self.out.append(f"/-- generated from `{cls}.__delitem__` (int index) -/")
+        self.out.append("@[pygen] def delitem_int (a : Model.BtArray.Arr) (index : Int) : Except PyErr Model.BtArray.Arr :=")
+        self.out.append(indent(stmts(d_int), 1)); self.out.append("")
+        env = Env()
+        self.out.append(f"/-- generated from `{cls}.__delitem__` (slice index) -/")
+        self.out.append("@[pygen] def delitem_slice (a : Model.BtArray.Arr) (i0 i1 i2 : Option Int) : Except PyErr Model.BtArray.Arr :=")
+        self.out.append(indent(stmts(d_slice), 1)); self.out.append("")
+        # __setitem__ (slice branch): the type checks first, in canonical form
+        s_int, s_slice = branches(self.find_func(cls, "__setitem__"), "__setitem__")
+        head = [ast.unparse(x) for x in s_slice[:3]]
+        want = ["if not isinstance(value, Iterable):\n    raise invalid_arg_type('value', 'iterable of " + item_cls + "', value)", "values = list(value)",
+                "if not all((isinstance(item, " + item_cls + ") for item in values)):\n    raise invalid_arg_type('value', 'iterable of " + item_cls + "', value)"]
+        if head != want:
+            fail("__setitem__ (slice): the three leading statements (Iterable check, list(value), element type check) are not canonical:\n" + "\n".join(head), s_slice[0])
+        env = Env()
+        self.out.append(f"/-- generated from `{cls}.__setitem__` (slice index; `values` are the tick counts of the items, all of the item class) -/")
+        self.out.append("@[pygen] def setitem_slice (a : Model.BtArray.Arr) (i0 i1 i2 : Option Int) (values : List Int) : Except PyErr Model.BtArray.Arr :=")
+        self.out.append(indent(stmts(s_slice[3:]), 1)); self.out.append("")
+        # insert: two type checks, then the clamped np.insert
+        ins = body_of(self.find_func(cls, "insert"))
+        head = [ast.unparse(x) for x in ins[:2]]
+        want = ["if not isinstance(index, int):\n    raise invalid_arg_type('index', 'int', index)", "if not isinstance(value, " + item_cls + "):\n    raise invalid_arg_type('value', '" + item_cls + "', value)"]
+        if head != want:
+            fail("insert: the two leading type checks are not canonical", ins[0])
+        env = Env(); env.ints.add("index")
+        self.out.append(f"/-- generated from `{cls}.insert` (index an int, value an item) -/")
+        self.out.append("@[pygen] def insert (a : Model.BtArray.Arr) (index : Int) (value : Int) : Except PyErr Model.BtArray.Arr :=")
+        self.out.append(indent(stmts(ins[2:]), 1)); self.out.append("")
+
     # -- T14: a dict-backed mapping with change notifications ----------------------------------------------------------------------
     def translate_dict_class(self, cls: str) -> None:
         """T14: `ExtendedPropertyDictionary` (nitypes/waveform/_extended_properties.py): a MutableMapping over `self._properties` whose
